@@ -23,7 +23,7 @@ ASSUMPTIONS = ['rows are float vectors of width 2 or 6; only operations that are
                'with drop_at the model is: contents are a suffix of the full list and include the newest row; an append (single '
                'or bulk) that brings the length to a multiple of drop_at discards the oldest drop_at // 2 rows and nothing else '
                'ever discards (the policy the ticker / trade / orderbook stores are sized for)']
-MIN_OBS = {'ops': 5000, 'slice_reads': 100000, 'index_reads': 20000, 'bucket_crossings': 500, 'deletes': 500,
+MIN_OBS = {'bulk_appends_into_empty': 100, 'ops': 5000, 'slice_reads': 100000, 'index_reads': 20000, 'bucket_crossings': 500, 'deletes': 500,
            'append_after_delete': 300, 'negative_slice_start_reads': 5000, 'setitem_ops': 200}
 EXHAUSTIVE_NOTE = 'DFS jobs enumerate every sequence over their alphabet up to their depth (see samples of kind dfs)'
 
@@ -383,7 +383,11 @@ def _random(job):
                 else:
                     h.op_delete(rng.randrange(n))
             else:
-                if n == 0 or r < 0.35:
+                if n == 0 and rng.random() < 0.4:
+                    # an empty (fresh or flushed) array is filled by a bulk append (warm-up injection), often of a single row
+                    h.op_append_multiple(rng.choice([1, 1, 2, bucket, bucket + 1]))
+                    h.c('bulk_appends_into_empty')
+                elif n == 0 or r < 0.35:
                     h.op_append()
                 elif r < 0.55:
                     h.op_append_multiple(rng.randint(1, max(2, bucket + 2)))
@@ -434,11 +438,12 @@ def make_jobs(tier, seed):
     alpha_small = ['A', 'M2', 'X0', 'XL', 'F']
     alpha_big = ['A', 'M1', 'M2', 'M3', 'X0', 'XL', 'Xm', 'F', 'S-1', 'SS']
     if tier == 'quick':
-        plans = [(2, 6, alpha_small), (3, 6, alpha_small), (2, 4, alpha_big), (3, 4, alpha_big)]
+        plans = [(2, 6, alpha_small), (3, 6, alpha_small), (2, 4, alpha_big), (3, 4, alpha_big),
+                 (1, 5, ['A', 'M1', 'M2', 'X0', 'F']), (1, 4, alpha_big)]
         nrand = 600
     else:
         plans = [(2, 9, alpha_small), (3, 8, alpha_small), (2, 6, alpha_big), (3, 6, alpha_big),
-                 (2, 11, ['A', 'X0', 'XL']), (3, 12, ['A', 'X0'])]
+                 (2, 11, ['A', 'X0', 'XL']), (3, 12, ['A', 'X0']), (1, 8, ['A', 'M1', 'M2', 'X0', 'F']), (1, 6, alpha_big)]
         nrand = 12000
     for bucket, depth, alpha in plans:
         for first in alpha:
